@@ -112,6 +112,7 @@ package kms
 //@   ensures [C17,C10:data-key-plaintext-wiped-on-every-return] retis(generateDataKey, 1, 1, nil) ==> (forall i int :: 0 <= i && i < len(ret(generateDataKey, 1, 0).Plaintext) ==> ret(generateDataKey, 1, 0).Plaintext[i] == 0)
 //@   ensures [C17:key-sealed-under-the-generated-data-key] retis(generateDataKey, 1, 1, nil) ==> ncalls(Encrypt) == 1 && arg(Encrypt, 1, data) == keyBytes && arg(Encrypt, 1, key) == ret(generateDataKey, 1, 0).Plaintext
 //@   ensures [C17:envelope-carries-the-sealed-key] retis(Encrypt, 1, 1, nil) ==> ncalls(Marshal) == 1 && istype(arg(Marshal, 1, v), envelope) && dyn(arg(Marshal, 1, v), envelope).EncryptedKey == ret(Encrypt, 1, 0)
+//@   ensures [C17:envelope-carries-the-entries-collected-from-the-regions] retis(Encrypt, 1, 1, nil) ==> dyn(arg(Marshal, 1, v), envelope).KEKs == ret(encryptRegionalKEKs, 1, 0)
 //@   ensures [C17:wrap-fails-only-if-no-region-generates-a-key-or-sealing-fails] err != nil ==> !retis(generateDataKey, 1, 1, nil) || !retis(Encrypt, 1, 1, nil) || !retis(Marshal, 1, 1, nil)
 
 // ---- the builder puts the preferred region's client first (C17: unwrapping is attempted preferred-region-first;
@@ -134,3 +135,13 @@ package kms
 //@   loop 1 invariant [C17:preferred-region-stays-first] (visited(b.preferredRegion) ==> len(clients) >= 1 && clients[0].Region == b.preferredRegion) && (forall j int :: 0 <= j && j < len(clients) ==> visited(clients[j].Region) && clients[j].Region in b.arnMap && clients[j].MasterKeyARN == b.arnMap[clients[j].Region]) && len(clients) == itercount()
 //@   ensures [C17:preferred-region-is-first-in-the-client-list] err == nil && b.preferredRegion in b.arnMap ==> len(result.clients) >= 1 && result.clients[0].Region == b.preferredRegion
 //@   ensures [C17:as-many-clients-as-configured-regions] err == nil ==> len(result.clients) == len(b.arnMap)
+
+// ---- every entry a region sent is kept in the envelope, in the order received ----
+//@ func (*AWSKMS).encryptRegionalKEKs
+//@   names a, ctx, dataKey
+//@   facet C17
+//@   opt no-frame
+//@   opt allow-go
+//@   requires a != nil && dataKey != nil && dataKey.KeyId != nil && distinctClients2(a)
+//@   loop 1 invariant [C17:every-entry-received-so-far-is-kept] len(out) == chrecvd(ch) && (forall k int :: 0 <= k && k < len(out) ==> out[k].Region == chlog(ch, k).Region && out[k].ARN == chlog(ch, k).ARN && out[k].EncryptedKEK == chlog(ch, k).EncryptedKEK)
+//@   ensures [C17:every-entry-received-is-kept-in-the-order-received] len(out) == chrecvd(ch) && (forall k int :: 0 <= k && k < len(out) ==> out[k].Region == chlog(ch, k).Region && out[k].ARN == chlog(ch, k).ARN && out[k].EncryptedKEK == chlog(ch, k).EncryptedKEK)
